@@ -470,7 +470,8 @@ def _xyz2thetaphi(x, y, z):
     """
     returns theta, phi in radians relative to the SDSS node at ra=95 degrees
     """
-    phi = arcsin(z)
+    # more precise than arcsin(z) next to the poles
+    phi = arctan2(z, np.hypot(x, y))
     theta = arctan2(y, x)
 
     return theta, phi
